@@ -253,6 +253,9 @@ def binop(I, fr, op, l, r, node):
             I.emit("uninit-read", fr, node, what="arithmetic on an np.empty buffer of which only %s was written" % (sorted(a_.note[2]) or "nothing"))
     # ---- sequences and strings
     if l.kind == K_STR or r.kind == K_STR:
+        if isinstance(op, ast.Add) and l.kind == K_STR and r.kind == K_STR and l.has_const() and r.has_const() and \
+                isinstance(l.const, str) and isinstance(r.const, str) and len(l.const) + len(r.const) <= 200:
+            return const_av(l.const + r.const).replace(tags=tags_of(l, r))        # "t_b" + "01": a constant
         if isinstance(op, (ast.Mod, ast.Add, ast.Mult)):
             return AV(kind=K_STR, tags=tags_of(l, r))
     seq = (K_LIST, K_TUPLE)
@@ -1182,6 +1185,10 @@ def call_builtin(I, fr, name, args, kwargs, node):
         I.emit("dynamic-getattr", fr, node)
         return top_av(True, "getattr with a non-literal name", I.atoms).replace(tags=tags_of(*args))
     if name == "setattr":
+        if len(args) == 3 and args[1].has_const() and isinstance(args[1].const, str) and args[1].const.isidentifier():
+            # setattr(obj, "<name folded to a constant>", v) -- "t_b" + suffix with the suffix taken from a literal table -- is obj.<name> = v
+            I.store_attr(fr, args[0], args[1].const, args[2], fr.cur_stmt if fr.cur_stmt is not None else node)
+            return const_av(None)
         I.emit("dynamic-setattr", fr, node)
         return const_av(None)
     if name == "print":
